@@ -2,22 +2,26 @@ from _common import *
 _f = ['cmb_process_hold', 'cmb_process_timer_add/_cancel/_timers_clear', 'cmb_process_wait_process', 'cmb_process_wait_event', 'cmb_process_interrupt', 'cmb_process_resume',
       'cmb_process_stop', 'cmb_process_exit', 'cmb_process_priority_set', 'cmi_process_cancel_awaiteds', 'cmi_process_drop_resources', 'wake_process_waiters',
       'wakeup_event_time/_process/_interrupt, resume_event', 'cmb_resourceguard_wait/_signal/_cancel/_remove/_register', 'wakeup_event_resource',
-      'cmb_event_* (real, below the process layer)', 'wakeup_event_event, wake_event_waiters, cmi_event_add_waiter/_remove_waiter']
+      'wakeup_event_event (extracted verbatim from src/cmb_event.c)']
 _stubs = ['coroutine layer replaced by the waker model (harness/procs.c): yield = environment step through the real API, then the first pending event addressed to the caller (in the real event order) is taken from the real queue and its REAL action (wakeup_event_time/_process/_event/_resource/_interrupt, resume_event) is run; resume = recorded',
-          'cmi_hashheap.c replaced by its contract stub (hhstub.h, contract from C02)', 'cmi_mempool_alloc/_free redirected to plain allocation (contract of C20: distinct live objects; freed tags must not be used)',
+          'cmb_event.c replaced by its contract stub harness/evstub.h (flat pending set; contract established by the C01 groups)', 'cmi_hashheap.c (guard queues) replaced by its contract stub hhstub.h (contract from C02)', 'cmi_mempool_alloc/_free redirected to plain allocation (contract of C20: distinct live objects; freed tags must not be used)',
           'demand functions / holdable drop+reprio methods: recording stubs']
 _assumes = ['user-chosen signal values (timers, interrupts, resume) are not 0 = SUCCESS', 'at most 2 foreign causes, 2 waiters, 2 queued processes per scenario (bounded-shape)']
-def _p(gid, prop, entry, define, bound, also=(), timeout=900, tier='quick', unwind=6, canaries=1):
-    return Group(id=gid, prop=prop, harness='procs.c', entry=entry, defines=[define], level='bounded-shape', bound=bound, backend='sat', timeout=timeout, tier=tier, canaries=canaries,
-                 unwind=unwind, functions=_f, stubs=_stubs, assumes=_assumes, also=list(also) + ['C10'],
-                 replace_calls=[('cmi_mempool_alloc', 'cmv_pool_alloc'), ('cmi_mempool_free', 'cmv_pool_free')])
+def _p(gid, prop, entry, define, bound, also=(), timeout=900, tier='quick', unwind=6, canaries=1, extra=(), observers=0):
+    return Group(id=gid, prop=prop, harness='procs.c', entry=entry, defines=[define] + list(extra), level='bounded-shape', bound=bound, backend='sat', timeout=timeout, tier=tier, canaries=canaries,
+                 unwind=unwind, unwindset='cmb_resourceguard_signal.0:%d' % (observers + 1), functions=_f, stubs=_stubs, assumes=_assumes, also=list(also) + ['C10'],
+                 replace_calls=[('cmi_mempool_alloc', 'cmv_pool_alloc'), ('cmi_mempool_free', 'cmv_pool_free')],
+                 extract={'src/cmb_event.c': ['wakeup_event_event']})
 GROUPS = [
     _p('C04.O1.hold', 'C04', 'h_hold', 'H_HOLD', 'hold with <= 2 arbitrary foreign causes (user timer / interrupt / resume) at arbitrary times and priorities', canaries=2),
     _p('C04.O2.timers', 'C04', 'h_timers', 'H_TIMERS', 'two armed timers + one unrelated registration; cancel / clear'),
     _p('C04.O3.wait_process', 'C04', 'h_waitproc', 'H_WAITPROC', 'one foreign cause; the awaited process running / stopped later / already finished; second waiter', also=['C09'], canaries=2),
     _p('C04.O3.wait_event', 'C04', 'h_waitevent', 'H_WAITEVENT', 'one foreign cause; the awaited event executes, or is cancelled first', canaries=2),
-    _p('C04.O3.guard_wait', 'C04', 'h_guardwait', 'H_GUARDWAIT', 'one foreign cause; another waiter; the guard signalled at an arbitrary time with demand true/false', also=['C08'], canaries=2),
-    _p('C06.O2.guard_signal', 'C06', 'h_guardsignal', 'H_GUARDSIGNAL', '<= 2 waiters with arbitrary priorities and entry times, one observer guard with one waiter; signal / cancel / remove', also=['C13']),
+] + [_p('C04.O3.guard_wait.%s' % nm, 'C04', 'h_guardwait', 'H_GUARDWAIT', 'another waiter queued; while the caller is suspended the guard is signalled (demand true/false) and %s' % txt, also=['C08'], canaries=cn, extra=['CMV_LITE', 'CMV_KIND=%d' % k])
+     for k, nm, txt, cn in ((0, 'granted', 'nothing else happens', 1), (1, 'timeout', 'a user timer of the caller fires at an arbitrary time', 2), (2, 'interrupt', 'the caller is interrupted with arbitrary priority', 2), (3, 'resume', 'the caller is resumed by a user resume', 2))] + [
+    _p('C04.O3.guard_wait', 'C04', 'h_guardwait', 'H_GUARDWAIT', 'foreign causes before and during the wait; another waiter or not; the guard signalled or not, demand true/false', also=['C08'], canaries=2),
+    _p('C06.O2.guard_signal', 'C06', 'h_guardsignal', 'H_GUARDSIGNAL', '<= 2 waiters with arbitrary priorities and entry times, one observer guard with one waiter; signal / cancel / remove', also=['C13'], observers=1),
     _p('C06.O3.priority_set', 'C06', 'h_prioset', 'H_PRIOSET', 'a process queued at a guard with a competitor, one armed timer, one held object'),
-    _p('C09.O2.end', 'C09', 'h_end', 'H_END', 'exit / stop by another / stop self; holding <= 1 object, <= 1 timer, queued at <= 1 guard, <= 1 pending wake-up, <= 2 waiters'),
+] + [_p('C09.O2.end.%s' % nm, 'C09', 'h_end', 'H_END', '%s; holding <= 1 object, <= 1 timer, queued at <= 1 guard, <= 1 pending wake-up, <= 2 waiters' % nm, extra=['CMV_ROUTE=%d' % r])
+     for r, nm in ((0, 'exit'), (1, 'stop_by_other'), (2, 'stop_self'))] + [
 ]
